@@ -17,7 +17,7 @@ LEVEL_TEXT = (
     'trace uses the caller\'s seed. Wall-clock bounds and "reaches the target when more states exist" '
     'are not decided.')
 
-FLOORS = {'C12-R1': 24, 'C12-R2': 6, 'C12-R3': 8, 'C12-R4': 3, 'C05-R1': 6, 'C05-R10': 2, 'C12-R6': 4, 'C12-R7': 4, 'C01-R6': 12}
+FLOORS = {'C12-R1': 24, 'C12-R2': 6, 'C12-R3': 8, 'C12-R4': 3, 'C05-R1': 6, 'C05-R10': 2, 'C12-R6': 4, 'C12-R7': 4, 'C12-R8': 20, 'C01-R6': 12}
 
 OPTIONS = ('finish_when', 'target_state_count', 'target_max_depth', 'timeout', 'visitor', 'thread_count')
 
@@ -286,14 +286,45 @@ def r3_tests_after_block(ctx, F):
                           'compared after the previous one' % strat)
 
 
+def sim_is_target(cb, v):
+    """v is the configured depth limit (as a number): target_max_depth.get(), or the payload of
+    `target_max_depth.map(NonZeroUsize::get)` computed in front of the loop"""
+    b = cb.b
+
+    def is_target(v):
+        v0 = noref(b.trace(v, ('NonZero::get',)))
+        if v0.kind == 'arg' and v0.key == cb.p_target_depth:
+            return True
+        # unwrapped once in front of the loop: `target_max_depth.map(NonZeroUsize::get)`
+        from taint import vals_of
+        v1 = noref(v)
+        pc = b.call_at(v1.key) if v1.kind == 'call' else None
+        if pc is not None and pc.is_('Option::map') and len(pc.args) == 2 and \
+                str(pc.args[1].get('fn', '')).endswith('NonZero::<T>::get'):
+            a0 = noref(b.val(pc.args[0]))
+            return a0.kind == 'arg' and a0.key == cb.p_target_depth
+        if v1.kind == 'local':
+            vs = vals_of(b, v1)
+            ok_ = bool(vs)
+            for x in vs:
+                x = noref(b.trace(noref(x), ('NonZero::get',)))
+                if x.kind == 'local':
+                    xs = set(noref(y) for y in vals_of(b, x))
+                    ok_ = ok_ and bool(xs) and all(y.kind == 'arg' and y.key == cb.p_target_depth for y in xs)
+                else:
+                    ok_ = ok_ and x.kind == 'arg' and x.key == cb.p_target_depth
+            return ok_
+        return False
+    return is_target(v)
+
+
 def sim_depth_edges(cb):
     """pass/stop edges of the depth test in the simulation loop"""
     b = cb.b
     from common import edges_where
 
     def is_target(v):
-        v = noref(b.trace(v, ('NonZero::get',)))
-        return v.kind == 'arg' and v.key == cb.p_target_depth
+        return sim_is_target(cb, v)
 
     def other(v):
         return not is_target(v)
@@ -319,6 +350,16 @@ def r4_depth_before_eval(ctx, F):
             for sw in b.switches:
                 if sw.kind == 'variant' and noref(sw.on) == V('arg', cb.p_target_depth):
                     none_edges += sw.edges_not('Some')
+            if strat == 'SIM':
+                # the limit may have been copied / unwrapped into a local Option first: a Some/None test of a value
+                # whose payload is the limit, and whose Some edge leads to the depth comparison, plays that role
+                for sw in b.switches:
+                    labs = [l for (l, t) in sw.edges if isinstance(l, str)]
+                    if sw.kind == 'variant' and 'Some' in labs and noref(sw.on) != V('arg', cb.p_target_depth):
+                        se = sw.edges_for('Some')
+                        payload = noref(sw.on).with_proj('as Some').with_proj('.0')
+                        if se and any(b.edges_dominate(se, tb) for tb in tests) and sim_is_target(cb, payload):
+                            none_edges += sw.edges_not('Some')
             starts = [e[1] for e in cb.deq_some] if strat != 'SIM' else [0]
             targets = [c.bb for c in cb.visit] + [c.bb for c in cb.cond_calls] + [cb.actions.bb]
             # cut the test blocks and the "no limit configured" edge: evaluation must be unreachable
@@ -338,6 +379,34 @@ def r4_depth_before_eval(ctx, F):
                       good='a state at the limit is neither visited nor evaluated nor expanded',
                       bad='%s: after the depth test fails the state is still evaluated/expanded (%s)' %
                           (strat, bad))
+
+
+TRUNCATING_DURATION = ('Duration::as_secs', 'Duration::as_millis', 'Duration::as_micros', 'Duration::subsec_millis',
+                       'Duration::subsec_micros', 'Duration::subsec_nanos', 'Duration::as_secs_f32',
+                       'Duration::as_secs_f64')
+
+
+def r8_timeout_at_full_resolution(ctx, F, rule='C12-R8'):
+    """"An unexpired timeout changes nothing": the configured timeout is a Duration and deadlines are compared as
+    Durations / points in time. Code of the checkers and the job market that turns a duration into whole seconds
+    (or another coarser unit) before comparing makes a 1.5 s timeout fire at 1 s and a 0.9 s timeout at once.
+    No non-logging call of a truncating accessor may occur there."""
+    n = 0
+    for b in F.bodies.values():
+        if not re.match(r'^<?(checker::(bfs|dfs|on_demand|simulation)|job_market)::', b.path.lstrip('<')) and \
+                not re.match(r'^(checker::(bfs|dfs|on_demand|simulation)|job_market)::', b.path):
+            continue
+        n += 1
+        bad = [c for c in b.calls if c.is_(*TRUNCATING_DURATION) and not c.exp]
+        if bad:
+            ctx.touched(b)
+        ctx.check(not bad, rule, 'no-truncated-duration@%s' % b.path, b,
+                  good='no duration is truncated to a coarser unit',
+                  bad='%s truncates a duration with %s before using it: a timeout with a fractional part expires early '
+                      '(1.5 s at 1 s, 0.9 s immediately), so an unexpired timeout stops the check' %
+                      (b.path, sorted(set(c.short.split('::')[-1] for c in bad))), span=bad[0].span if bad else None)
+    if n < 20:
+        raise AnchorMissing('bodies of the checkers and the job market (found %d)' % n)
 
 
 def r6_shutdown_observed(ctx, F):
@@ -484,6 +553,10 @@ def run(ctx):
     ctx.doc('C05-R1', 'no blocking call (sleep) while the job-market lock is held (timeout thread)')
     ctx.doc('C12-R6', 'no cycle through check_block avoids every observer of the shutdown state')
     ctx.doc('C12-R7', 'worker 0\'s first trace uses the caller\'s seed; chooser state is created from it')
+    ctx.doc('C12-R8', 'checkers and job market never truncate a duration to a coarser unit (timeouts are compared at '
+                      'full resolution)')
+    with ctx.rule('C12-R8', 'durations'):
+        r8_timeout_at_full_resolution(ctx, F)
     r1_matrix(ctx, F)
     with ctx.rule('C12-R2', 'matches'):
         r2_matches(ctx, F)
